@@ -1869,6 +1869,10 @@ class Identifier(str):
     def __hash__(self) -> int:
         return super().__hash__()
 
+    def __getnewargs_ex__(self) -> tuple[tuple[str], dict[str, object]]:
+        # `token` is a required keyword argument of __new__: tell pickle/copy about it.
+        return (str(self),), {"token": self.token}
+
     def as_source(self) -> str:
         """Return this identifier as it is written in a template.
 
